@@ -38,6 +38,12 @@ CLAIMED = {
          "static analysis: provenance of call arguments, path-wise ghost-length accounting, interval facts on casts, per-editor drop-condition tables over loop paths"),
  'C07': ("decides the inductive step 'canonical in => canonical out' structurally for every writer: consistent raw copies, measured lengths in encoder and builders, ordered unique keys for every object-header writer, exact re-wrap and exact (offset, length) positions in the selector, and that no other function writes a container header. Equality with the tree result along a history is NOT decided",
          "static analysis: compositional writer rules (provenance, ghost accounting, who-may-write) over MIR"),
+ 'C12': ("decides for all valid documents: the byte walker compares scalar payloads only through scalar_eq, which decodes numbers and compares them with Number's exact ==; in the tree twin every recursive containment test is guarded by equal kinds or a container right operand (the top-level array/scalar exception cannot leak); the nested-candidate filter depends on the entry kind only; kinds differ -> false; contains dispatches each argument independently. Reflexivity, transitivity and the @> semantics as a whole are NOT decided",
+         "static analysis: who-may-compare rule, guard edge-dominance on the CFG, closure return-term matching"),
+ 'C13': ("decides for all valid documents: element key type (entry word + payload) in all four functions, complementary path classes of intersection/except (so the results partition the first list), ArrayBuilder-only output with consistent copies, three-way header dispatch per argument, result elements from the first / lookup structure from the second argument, overlap true only after a found element, independent ordered dispatch of the public wrappers. First-occurrence order and idempotence of distinct are NOT decided",
+         "static analysis: MIR local types, path-class tables over loop iterations, argument provenance"),
+ 'C14': ("decides structural necessary conditions of the order embedding: rank bytes are compare's ranks, the f64 bit transform is the standard monotone map, every element is emitted through the prefixing helper at the right depth, helper cursors follow the layout; four violations of the property on the pinned tree are known findings (lossy as_f64 image, to_bits of signed zero, undelimited strings, u8 depth overflow). The order embedding itself is NOT decided",
+         "static analysis: expression-tree matching, who-may-append rule, interval analysis on u8, walker dataflow"),
 }
 NOT_APPLICABLE = {
 }
